@@ -45,10 +45,27 @@ class Translator:
         return f
 
     def run(self, fdef, env, calls):
-        """Execute straight-line body (Assign / Return / docstring). calls: {dotted name: python callable over V's}."""
+        """Execute a function body: assignments, returns, if/else (merged with ite), nested single-purpose defs (inlined at their calls).
+        calls: {dotted name: python callable over V's}."""
         self.calls = calls
-        env = dict(env)
-        for st in fdef.body:
+        ret = self.block(list(fdef.body), dict(env))
+        if ret is None:
+            raise Unsupported("no return")
+        return ret
+
+    def ite(self, c, a, b):
+        if a.kind == "list" and b.kind == "list" and len(a.term) == len(b.term):
+            return V("list", [self.ite(c, x, y) for x, y in zip(a.term, b.term)])
+        if a.kind != b.kind:
+            if {a.kind, b.kind} == {"int", "float"}:
+                a, b = V("float", self.to_float(a)), V("float", self.to_float(b))
+            else:
+                raise Unsupported("branches of different kinds")
+        return V(a.kind, z3.If(c, a.term, b.term))
+
+    def block(self, stmts, env):
+        """Returns the value returned by the statement list (None if it falls through); env is updated in place."""
+        for i, st in enumerate(stmts):
             if isinstance(st, ast.Expr) and isinstance(st.value, ast.Constant):
                 continue
             if isinstance(st, ast.Assign):
@@ -58,10 +75,30 @@ class Translator:
             elif isinstance(st, ast.AnnAssign) and st.value is not None:
                 self.assign(st.target, self.expr(st.value, env), env)
             elif isinstance(st, ast.Return):
+                if st.value is None:
+                    raise Unsupported("bare return")
                 return self.expr(st.value, env)
+            elif isinstance(st, ast.FunctionDef):
+                env[st.name] = V("func", (st, dict(env)))
+            elif isinstance(st, ast.If):
+                c = self.truth(self.expr(st.test, env))
+                env_t, env_f = dict(env), dict(env)
+                rt = self.block(list(st.body), env_t)
+                rf = self.block(list(st.orelse), env_f)
+                rest = stmts[i + 1:]
+                # continue the rest of the block on each side that fell through, then merge the returned values
+                if rt is None:
+                    rt = self.block(list(rest), env_t)
+                if rf is None:
+                    rf = self.block(list(rest), env_f)
+                if rt is None or rf is None:
+                    raise Unsupported("if without a return on some path at the end of the function")
+                return self.ite(c, rt, rf)
+            elif isinstance(st, ast.Pass):
+                continue
             else:
                 raise Unsupported("statement " + type(st).__name__)
-        raise Unsupported("no return")
+        return None
 
     def assign(self, tgt, val, env):
         if isinstance(tgt, ast.Name):
@@ -122,6 +159,18 @@ class Translator:
         if isinstance(e, ast.Call):
             name = self.dotted(e.func)
             args = [self.expr(a, env) for a in e.args]
+            if name in env and env[name].kind == "func":       # a nested helper: inline it
+                fd, closure = env[name].term
+                inner = dict(closure)
+                params = [a.arg for a in fd.args.args]
+                if len(params) != len(args) or e.keywords:
+                    raise Unsupported("call of nested function with keywords/defaults")
+                inner.update(dict(zip(params, args)))
+                inner[name] = env[name]
+                r = self.block(list(fd.body), inner)
+                if r is None:
+                    raise Unsupported("nested function without return")
+                return r
             if name in self.calls:
                 return self.calls[name](*args)
             return self.builtin(name, args)
